@@ -265,7 +265,7 @@ def coq_case(name, q, info, obs, big):
         f"tally_eig O {d} {tol_lit(O, 1e-11 * hs)} Hs Vs ev",
         f"tallyC O {tol_lit(O, TOL_U)} {carr_lit(obs['Q'].reshape(-1))}%Z (flat3 Qm)",
         f"tallyC O {tol_lit(O, TOL_U)} {carr_lit(obs['total'].reshape(-1))}%Z (flat2 (total_propagator O {d} Qm))",
-        f"tallyR O {tol_lit(O, 1e-300)} {rvec_lit(q.dt)}%Z newdt",
+        f"tallyR O {tol_lit(O, 1e-13 * max(np.abs(q.dt).max(), 1e-30))} {rvec_lit(q.dt)}%Z newdt",
         f"tallyR O {tol_lit(O, TOL_T * tscale)} {rvec_lit(obs['t'])}%Z (t_get O None newdt)",
         f"tallyR O {tol_lit(O, TOL_T * tscale)} {rvec_lit([obs['tau1']])}%Z [tau_get O (Some ts) newdt]",
     ]
